@@ -50,11 +50,74 @@ impl<'a> NULL<'a> {
                 data.len() > 65535 ==> r is Err,
 """)
     # ---- weak for now
-    for t, f, ext in [('TXT', 'txt', ('write_to', 'len')), ('OPT', 'opt', ('write_to', 'len')), ('SVCB', 'svcb', ('write_to', 'len')),
+    # ---- OPT (RFC 6891 6.1.2): CLASS slot = UDP payload size, TTL = ext-rcode | version | flags, RDATA = options
+    rel = 'dns/rdata/opt.rs'
+    c.append(rel, """verus!{
+pub open spec fn opt_items(cs: Seq<OPTCode>) -> Seq<(u16, Seq<u8>)> { cs.map(|i: int, c: OPTCode| (c.code, c.data@)) }
+pub proof fn lemma_opt_items_push(cs: Seq<OPTCode>, c: OPTCode)
+    ensures opt_items(cs.push(c)) == opt_items(cs).push((c.code, c.data@)),
+            opt_items(cs.push(c)).drop_last() == opt_items(cs),
+{
+    assert(opt_items(cs.push(c)) =~= opt_items(cs).push((c.code, c.data@)));
+    assert(opt_items(cs).push((c.code, c.data@)).drop_last() =~= opt_items(cs));
+}
+}
+""")
+    OPT_WF = impl_header(c, rel, 'OPT')
+    wrap_type(c, rel, 'OPT', """    open spec fn wf_ok(&self) -> bool { tlv16_ok(opt_items(self.opt_codes@)) }
+    open spec fn wf_enc(&self) -> Seq<u8> { tlv16_enc(opt_items(self.opt_codes@)) }
+    /// `p` is the offset of the record's TYPE field (the OPT parser reads CLASS and TTL itself); data ends with the RDATA
+    open spec fn wf_dec(data: Seq<u8>, p: int, v: &Self, p2: int) -> bool {
+        &&& 0 <= p && p + 10 <= data.len()
+        &&& v.udp_packet_size == be16(data[p + 2], data[p + 3])   // CLASS slot
+        &&& v.version == data[p + 5]                                // TTL: ext-rcode(p+4) VERSION(p+5) flags(p+6..p+8)
+        &&& tlv16(data, p + 10, opt_items(v.opt_codes@), data.len() as int)
+        &&& p2 == data.len()
+    }
+""", external_trait_fns=('write_compressed_to', 'len'))
+    c.contract(rel, OPT_WF, 'parse', "", pre_body="""
+        let ghost p0 = *position as int;
+        proof { lemma_tz_consts(); }
+""")
+    c.ghost(rel, OPT_WF, 'parse', "let version = ((ttl & masks::VERSION_MASK)", """
+        proof { lemma_u32_octets(ttl, data@.subrange(p0 + 4, p0 + 8)); }
+""", where='before')
+    c.loop_spec(rel, OPT_WF, 'parse', 0, """
+            invariant *position <= data.len(), data.len() <= isize::MAX, p0 + 10 <= *position,
+                tlv16(data@, p0 + 10, opt_items(opt_codes@), *position as int), // @C09:options-decoded
+            decreases data.len() - *position,
+""")
+    c.ghost(rel, OPT_WF, 'parse', "opt_codes.push(OPTCode {", "            let ghost old_codes = opt_codes@;", where='before')
+    c.ghost(rel, OPT_WF, 'parse', "*position += 4 + length;", """
+            proof {
+                lemma_opt_items_push(old_codes, opt_codes@.last());
+                assert(opt_codes@ =~= old_codes.push(opt_codes@.last()));
+            }
+""", where='after')
+    c.contract(rel, OPT_WF, 'write_to', "", pre_body="""
+        let ghost items = opt_items(self.opt_codes@);
+        proof { assert(items.subrange(0, 0) =~= Seq::<(u16, Seq<u8>)>::empty()); }
+""")
+    c.loop_spec(rel, OPT_WF, 'write_to', 0, """
+            invariant items == opt_items(self.opt_codes@), tlv16_ok(items), 0 <= vx_it.index@ <= items.len(), items.len() == self.opt_codes@.len(),
+                vx_it.seq() == self.opt_codes@.map(|i: int, x: OPTCode<'a>| &x),
+                wrote(old(out), out, tlv16_enc(items.subrange(0, vx_it.index@ as int))), // @C09:options-encoded
+""", iter_name='vx_it')
+    c.ghost(rel, OPT_WF, 'write_to', "out.write_all(&code.data)?;", """
+            proof {
+                let i = vx_it.index@ as int;
+                assert(items[i] == (code.code, code.data@));
+                assert(items.subrange(0, i + 1).drop_last() =~= items.subrange(0, i));
+                assert(items.subrange(0, i + 1).last() == items[i]);
+            }
+""", where='after')
+    c.ghost(rel, OPT_WF, 'write_to', "Ok(())", "        proof { assert(items.subrange(0, items.len() as int) =~= items); }", where='before')
+
+    for t, f, ext in [('TXT', 'txt', ('write_to', 'len')), ('SVCB', 'svcb', ('write_to', 'len')),
                       ('NSEC', 'nsec', ('write_to', 'len')), ('IPSECKEY', 'ipseckey', ('write_to', 'len')), ('NSAP', 'nsap', ('write_to', 'len'))]:
         rel = 'dns/rdata/%s.rs' % f
         wrap_type(c, rel, t, WEAK, external_trait_fns=('write_compressed_to',) + ext)
-    for f in ('txt', 'opt', 'svcb', 'nsec'):
+    for f in ('txt', 'svcb', 'nsec'):
         rel = 'dns/rdata/%s.rs' % f
         t = {'txt': 'TXT', 'opt': 'OPT', 'svcb': 'SVCB', 'nsec': 'NSEC'}[f]
         c.loop_spec(rel, impl_header(c, rel, t), 'parse', 0, LOOP_INV)
